@@ -375,6 +375,9 @@ impl OutstationSession {
         loop {
             if let Err(err) = self.run_idle_state(io, reader, writer, database).await {
                 self.state.reset();
+                // a response still awaiting its confirmation dies with the session:
+                // put the events it carried back on offer
+                database.reset();
                 return err;
             }
         }
@@ -546,6 +549,9 @@ impl OutstationSession {
                         Ok(NextIdleAction::SleepUntilEvent)
                     }
                     Some(UnsolicitedResult::Timeout) | Some(UnsolicitedResult::ReturnToIdle) => {
+                        // the series ended without a confirmation: the events it carried
+                        // must not be released by the confirmation of some other response
+                        database.reset();
                         let retry_at = self.new_unsolicited_retry_deadline();
                         self.state.unsolicited = UnsolicitedState::Ready(Some(retry_at));
                         Ok(NextIdleAction::SleepUnit(retry_at))
